@@ -7,10 +7,11 @@ TECHNIQUE = "slice-bounded-by-result provenance rule on the hashing writer; loop
 EXPLANATION = ("gix_features::hash::Write::write must feed the hasher exactly `buf[..written]` where `written` is the value the inner writer returned, and return that same "
                "value; deflate::Write::write_inner may only loop again on the true edge of `total_out() > last_total_out` or `total_in() > last_total_in` (so a call that "
                "neither consumed input nor produced output returns), writes exactly the produced bytes to the inner writer, flush() drives the loop with FlushCompress::Finish "
-               "and write() with FlushCompress::None; the generic loop-progress analysis also holds for every loop of the zlib module. inflate(deflate(x)) = x is zlib's contract and not decided.")
+               "and write() with FlushCompress::None; the generic loop-progress analysis also holds for every loop of the zlib module. In gix_features::hash a hasher update that follows io::Read::read takes a slice cut by the returned count (read_exact: the filled slice). inflate(deflate(x)) = x is zlib's contract and not decided.")
 
 
 def run(db, chk):
+    hash_what_was_read(db, chk)
     w = db.one(r"^<gix_features::hash::write::Write<T> as std::io::Write>::write$|^<gix_features::hash::Write<T> as std::io::Write>::write$")
     fl = Flow(w)
     inner = [c for c in w.calls() if c.is_(r"^std::io::Write::write$") and any(r[0] == "arg" and ".inner" in r[2] for r in fl.roots(c.args[0], stop_named=False))]
@@ -71,3 +72,44 @@ def run(db, chk):
             n += 1
             chk.ob("loop-progress", "%s loop@%s" % (f.name.split("gix_features::")[-1], r.get("line")), r["ok"], r.get("reason", r["kind"]), "%s:%s" % (f.file, r.get("line")), key="loop-progress|%s" % f.name)
     chk.floor("loops in gix_features::zlib", n, 2)
+
+
+def hash_what_was_read(db, chk):
+    """streaming hash: in gix_features::hash every function that fills a buffer with io::Read::read (which may return short counts) must feed
+    the hasher a slice bounded by that count; read_exact fills the whole slice and may be followed by update(slice).  Zero-expected rule on
+    today's tree (read_exact is used) with the matching control: the update after read_exact takes the same slice that was filled."""
+    from gx.flow import Flow
+    fns = [f for f in db.by_crate["gix_features"] if "::hash::" in f.name and f.kind != "promoted"]
+    chk.floor("gix_features::hash functions", len(fns), 5)
+    n_exact = n_short = 0
+    for f in fns:
+        fl = Flow(f)
+        upds = [c for c in f.calls() if c.is_(r"Hasher>?::update$|::update$")]
+        if not upds:
+            continue
+        exact = f.calls_to(r"io::Read::read_exact\\??(dyn)?$|Read::read_exact")
+        short = [c for c in f.calls() if c.is_(r"io::Read::read\\??(dyn)?$|Read::read\\??(dyn)?$") and "read_exact" not in c.name and "read_to" not in c.name]
+        for r_ in short:
+            for u in upds:
+                if u.block not in f.reach_from(r_.block):
+                    continue
+                n_short += 1
+                # the update's slice must be cut by the count: an Index(RangeTo{end}) with end derived from this read's result
+                roots = fl.roots(u.args[1], stop_named=False, sites=True)
+                idx = [x for x in roots if x[0] == "call" and x[1].endswith("::index")]
+                bounded = False
+                for c in f.calls():
+                    if c.is_(r"::index(_mut)?$") and len(c.args) == 2 and any(x[0] == "call" and x[2] == c.block for x in idx):
+                        if any(y[0] == "call" and y[2] == r_.block for y in fl.roots(c.args[1], stop_named=False, sites=True)):
+                            bounded = True
+                chk.ob("hash-what-was-read", "%s update@%d after read@%d" % (f.name.split("gix_features::")[-1], u.line, r_.line), bounded,
+                       "read() may return fewer bytes than the buffer holds, but the hasher is fed the whole buffer (stale bytes are hashed): the id depends on how the reader portions the data",
+                       u.where(), key="hash-what-was-read|%s" % f.name.split("::")[-1])
+        for r_ in exact:
+            for u in upds:
+                if u.block in f.reach_from(r_.block):
+                    n_exact += 1
+                    same = fl.root_vars(u.args[1]) & fl.root_vars(r_.args[1])
+                    chk.ob("hash-what-was-read", "%s update@%d after read_exact@%d" % (f.name.split("gix_features::")[-1], u.line, r_.line), bool(same),
+                           "the slice hashed is not the slice that read_exact filled", u.where(), key="hash-what-was-read-exact|%s" % f.name.split("::")[-1])
+    chk.floor("hasher updates fed from a reader in gix_features::hash", n_exact + n_short, 1)
